@@ -262,6 +262,19 @@ func streamCSV(o *Out, rng *rand.Rand, thorough bool, _ []string) {
 					}
 				}
 			}
+			if rng.Intn(5) == 0 {
+				// same-named sub-documents under different parents, nothing between them: {p:{ops:{r,w}}, s:{ops:{r,w}}, total}
+				leaf := func(k string) *Schema { return &Schema{Key: k, Tag: 0x12, Gen: int64Gen(rng)} }
+				inner := func() *Schema {
+					return &Schema{Key: []string{"ops", "n", "x"}[rng.Intn(3)], Tag: 0x03, Kids: []*Schema{leaf("reads"), leaf("writes")}}
+				}
+				a, b := inner(), inner()
+				b.Key = a.Key
+				schema = []*Schema{{Key: "primary", Tag: 0x03, Kids: []*Schema{a}}, {Key: "secondary", Tag: 0x03, Kids: []*Schema{b}}, leaf("total")}
+				if rng.Intn(2) == 0 {
+					schema = []*Schema{{Key: "top", Tag: 0x03, Kids: schema[:2]}, leaf("total")} // one level deeper
+				}
+			}
 			docs := genDocs(rng, schema, 1+rng.Intn(8))
 			stream = append(stream, collect(ctors[1+rng.Intn(4)], 1+rng.Intn(4), nil, docs)...)
 		}
